@@ -465,6 +465,13 @@ def r13_7(ctx: Ctx) -> RuleResult:
     return rr
 
 
+def _decoder_names():  # type: ignore[no-untyped-def]
+    """`_decode_string_literal`, or what fills its role on this tree (sa/loader.py ANCHOR_ROLES)."""
+    from sa.loader import ROLE_FILLERS
+
+    return ("_decode_string_literal",) + tuple(v[1] for k, v in ROLE_FILLERS.items() if k == ("Parser", "_decode_string_literal"))
+
+
 def r13_8(ctx: Ctx) -> RuleResult:
     rr = RuleResult("R13.8", "root-less queries and bare names build the standard selector", floor=4)
     parse = ctx.repo.require_func("Parser.parse")
@@ -498,7 +505,7 @@ def r13_8(ctx: Ctx) -> RuleResult:
             if name is not None and kinds is not None:
                 if kinds <= {bare, prop} and path_of(name) == "stream.current.value":
                     good = True
-                elif isinstance(name, ast.Call) and callee_name(name) == "_decode_string_literal" and name.args and path_of(name.args[0]) == "stream.current":
+                elif isinstance(name, ast.Call) and callee_name(name) in _decoder_names() and name.args and path_of(name.args[0]) == "stream.current":
                     good = True
             if good:
                 rr.ok(fn.loc(c), f"{fn.qualname}: PropertySelector(name={short(name)}) for tokens {sorted(kinds or [])}")
